@@ -868,6 +868,22 @@ func (s *SecureChannel) handleOpenSecureChannelRequest(reqID uint32, svc ua.Requ
 		return err
 	}
 
+	// When the token is renewed the client may have sent requests which
+	// are still secured with the previous token. Its keys must be accepted
+	// until it has expired.
+	var previous *channelInstance
+	if instance.state == channelActive {
+		previous = &channelInstance{
+			sc:              s,
+			state:           channelActive,
+			createdAt:       instance.createdAt,
+			revisedLifetime: instance.revisedLifetime,
+			secureChannelID: instance.secureChannelID,
+			securityTokenID: instance.securityTokenID,
+			algo:            instance.algo,
+		}
+	}
+
 	instance.algo = algo
 	instance.sc.requestID = req.RequestHeader.RequestHandle // todo(fs): is this correct?
 
@@ -905,13 +921,16 @@ func (s *SecureChannel) handleOpenSecureChannelRequest(reqID uint32, svc ua.Requ
 	instance.SetMaximumBodySize(int(s.c.SendBufSize()))
 
 	instance.state = channelActive // todo(fs): is this correct?
+	instance.createdAt = resp.SecurityToken.CreatedAt
+	instance.revisedLifetime = time.Millisecond * time.Duration(resp.SecurityToken.RevisedLifetime)
 	// s.setState(secureChannelOpen)
 
 	s.instancesMu.Lock()
-	s.instances[instance.secureChannelID] = append(
-		s.instances[instance.secureChannelID],
-		instance,
-	)
+	if previous != nil {
+		s.instances[instance.secureChannelID] = []*channelInstance{previous, instance}
+	} else {
+		s.instances[instance.secureChannelID] = []*channelInstance{instance}
+	}
 	s.activeInstance = instance
 	s.instancesMu.Unlock()
 
